@@ -51,7 +51,13 @@ func NewEnv() *Env {
 // privateCache: the Go build cache of this worker process (see core.PrivateGoCache).
 var privateCache string
 
-func (e *Env) Close() { os.RemoveAll(e.Root) }
+func (e *Env) Close() {
+	if os.Getenv("VSIM_KEEP") != "" {
+		fmt.Fprintln(os.Stderr, "kept:", e.Root)
+		return
+	}
+	os.RemoveAll(e.Root)
+}
 
 func goEnv() []string {
 	env := os.Environ()
@@ -85,7 +91,12 @@ func (e *Env) NewBatch(p *gen.Prog) *Batch {
 	return &Batch{env: e, Dir: dir, Prog: p}
 }
 
-func (b *Batch) Remove() { os.RemoveAll(b.Dir) }
+func (b *Batch) Remove() {
+	if os.Getenv("VSIM_KEEP") != "" { // debugging aid: keep the scratch trees
+		return
+	}
+	os.RemoveAll(b.Dir)
+}
 
 func must(err error) {
 	if err != nil {
